@@ -358,6 +358,49 @@ func init() {
 		Bounds: func(tier string) map[string]interface{} { return map[string]interface{}{} },
 		Covers: []string{"tables done", "intervals done", "time done"}, RequireCovers: true,
 	}
+	propDefs["C05"] = &PropDef{
+		ID:       "C05",
+		Patterns: []string{"./mp4"},
+		InitPkgs: []string{mod + "/mp4"},
+		Instances: func(tier string, L *Loaded) []*HarnessCfg {
+			var r []*HarnessCfg
+			p := mod + "/mp4"
+			type pat struct {
+				n     int
+				p, sz string
+			}
+			pats := []pat{
+				{1, "F0", "2"}, {1, "F0F0", "21"}, {1, "F0F0F0", "102"}, {1, "T0T0", "12"}, {1, "S0S0", "11"},
+				{1, "M0", "21"}, {1, "I0", "12"}, {1, "F0|F0F0", "121"}, {1, "M0F0", "111"},
+				{2, "T0T1", "12"}, {2, "T0T1T0", "121"}, {2, "T1T1", "21"}, {2, "S0T1S0", "112"}, {2, "T0T1|T1", "111"},
+			}
+			if tier == "thorough" {
+				pats = append(pats, pat{1, "F0F0F0F0", "1230"}, pat{1, "M0M0", "1212"}, pat{1, "I0|I0", "1221"}, pat{1, "S0F0T0", "123"},
+					pat{2, "T0T1T0T1", "1212"}, pat{2, "S1S0S1", "321"}, pat{2, "T0T0|T1T1", "1122"}, pat{2, "T1|T0T1", "211"}, pat{3, "T0T2T1", "111"})
+			}
+			for i, pt := range pats {
+				for _, opt := range []string{"false", "true"} {
+					for vi, enc := range [][2]string{{"false", "false"}, {"true", "true"}, {"true", "false"}, {"false", "true"}} {
+						if tier != "thorough" && vi >= 2 {
+							continue
+						}
+						extras := []int{0}
+						if i%3 == 0 {
+							extras = append(extras, 1+4+8)
+						}
+						for _, ex := range extras {
+							c := inst(p, "VerifC05", itoa(pt.n), pt.p, pt.sz, opt, enc[0], enc[1], itoa(ex))
+							c.MaxWallS = tierW(tier, 60, 600)
+							r = append(r, c)
+						}
+					}
+				}
+			}
+			return r
+		},
+		Bounds: func(tier string) map[string]interface{} { return map[string]interface{}{} },
+		Covers: []string{"samples read back"}, RequireCovers: true,
+	}
 	propDefs["C13"] = &PropDef{
 		ID:       "C13",
 		Patterns: []string{"./bits"},
@@ -451,6 +494,20 @@ func selectLengths(succ []int, max int) []int {
 		for _, n := range []int{4, 12, 16, 20, 24, 32} {
 			set[n] = true
 		}
+	}
+	// sparse success sets (count-driven boxes): continue the arithmetic progression a little,
+	// the calibration's time cap tends to miss the longer members
+	if k := len(succ); k >= 2 && k <= 40 {
+		d := succ[1] - succ[0]
+		if d > 1 {
+			for n, i := succ[0], 0; n <= max && i < 6; n, i = n+d, i+1 {
+				set[n] = true
+			}
+		}
+	}
+	// and one length just after the first success (trailing optional fields)
+	if len(succ) > 0 && succ[0]+4 <= max {
+		set[succ[0]+4] = true
 	}
 	var r []int
 	for n := range set {
